@@ -1,7 +1,7 @@
 """Shared pieces of the run-time-library properties (C10, C11, C20): GenLib regeneration, proofs."""
 import json
 
-from .. import common, translate
+from .. import common, translate, imp_translate
 
 
 def preamble(run, module, theorems):
@@ -14,8 +14,18 @@ def preamble(run, module, theorems):
         translate.write_genlib(translate.generate_lib())
     except translate.TranslateError as e:
         run.translator_error("run-time library tables: " + str(e))
+    regen_imp(run)
     run.hygiene()
     run.prove(module, theorems)
+
+
+def regen_imp(run):
+    """GenImp.v: the imperative run-time library code (utils.rs overlap check, InstantiateBuilder) translated into the
+    deep-embedded language of Model/Imp.v"""
+    try:
+        imp_translate.write(imp_translate.generate())
+    except translate.TranslateError as e:
+        run.translator_error("translation of the run-time library source (GenImp): " + str(e))
 
 
 LIB_HEADER = ("From Coq Require Import String List ZArith.\nImport ListNotations.\n"
